@@ -4,3 +4,4 @@ import PylxProofs.C11
 import PylxProofs.C17
 import PylxProofs.C19
 import PylxProofs.C04
+import PylxProofs.C14
